@@ -325,7 +325,9 @@ def callable_getter(shape):
     }[shape]
 
 
-def reference(case, opts):
+def reference(case, opts, in_opts=None):
+    """in_opts: options used for the *input* validations only (diagnosis of 'input options ignored')"""
+    in_opts = opts if in_opts is None else in_opts
     w = World(case)
     raw = w.make_fn()
     w.make_class(raw)
@@ -365,7 +367,7 @@ def reference(case, opts):
     failed = None
     for name, sub, schemas, optional in slots:
         cur = ba.arguments[name] if sub is None else ba.arguments[name][sub]
-        k, parsed = _ref_validate_one(cur, schemas, optional, opts, is_types)  # may raise Skip
+        k, parsed = _ref_validate_one(cur, schemas, optional, in_opts, is_types)  # may raise Skip
         if failed is not None:
             continue  # dry run only: a non-schema error of the oracle anywhere puts the case outside the domain
         if k != "ok":
